@@ -911,17 +911,25 @@ class Gen(object):
             self.feat("downcast:" + ct[0])
             sc2 = sc.extend(binds)
             node = G.Expect(pat, ct, rhs, self.expr(ty, sc2, d - 1), ty)
-            if A.lazy_cast_hazard(node):
-                # FINDINGS.md F10: a cast to a primitive type is only performed when its variable is needed
+            hz = A.lazy_cast_hazard(node)
+            if hz:
+                # FINDINGS.md F10 / F11: a cast to a primitive type is only performed when its variable is needed,
+                # and an Int / ByteArray cast is only noticed when the value is consumed as such
                 if self.allow_hazard:
-                    self.feat("known:call-by-need-expect-cast")
+                    self.feat("known:" + hz)
                     return node
                 for _ in range(2):
                     node.body = self.expr(ty, sc2, d - 1)
                     if not A.lazy_cast_hazard(node):
                         return node
-                b = self.strict_user(pat.name, ct, ty, sc2, d) if pat.K == "PVar" else None
-                node.body = b if b is not None else self.expr(ty, sc, d - 1)
+                for _ in range(3):
+                    b = self.strict_user(pat.name, ct, ty, sc2, d) if pat.K == "PVar" else None
+                    if b is None:
+                        break
+                    node.body = b
+                    if not A.lazy_cast_hazard(node):
+                        return node
+                node.body = self.expr(ty, sc, d - 1)  # the variable is not used at all: the cast is still performed
             return node
         if ch < 6:
             self.feat("expect:bool")
@@ -968,6 +976,16 @@ class Gen(object):
             rr = self.expr(INT, sc, d - 1)
         return G.Bin(op, l, rr, INT)
 
+    def is_const_false(self, e):
+        n = 0
+        while e.K == "Var" and n < 10:
+            cs = [c for c in self.consts if c.name == e.name]
+            if not cs:
+                break
+            e = cs[0].expr
+            n += 1
+        return e.K == "Lit" and e.val is False
+
     def gen_bool(self, sc, d):
         r = self.rng
         ch = self.choose([(6, "cmp"), (5, "eq"), (4, "and"), (4, "or"), (2, "not"), (2, "chain"), (1, "tif"), (4, "guard")])
@@ -994,7 +1012,7 @@ class Gen(object):
         if ch == "and":
             self.feat("op:&&")
             l, rr = self.expr(BOOL, sc, d - 1), self.expr(BOOL, sc, d - 1)
-            if rr.K == "Lit" and rr.val is False:
+            if self.is_const_false(rr):
                 # FINDINGS.md F6: `x && False` is rewritten to False without evaluating x
                 if self.opts.get("include_known"):
                     self.feat("known:F6_and_false")
@@ -1013,7 +1031,7 @@ class Gen(object):
             es = [self.expr(BOOL, sc, d - 1) for _ in range(r.range(2, 3))]
             if kind == "and" and not self.opts.get("include_known"):
                 for i in range(1, len(es)):
-                    if es[i].K == "Lit" and es[i].val is False:
+                    if self.is_const_false(es[i]):
                         es[i] = G.Lit(True, None, BOOL)
             return G.Chain(kind, es, BOOL)
         self.feat("trace_if_false")
@@ -1070,7 +1088,7 @@ class Gen(object):
         if form == 0:
             self.feat("chain:" + ("and" if conj else "or"))
             extra = [self.expr(BOOL, sc, max(d - 2, 0))] if r.chance(1, 3) else []
-            if conj and extra and extra[0].K == "Lit" and extra[0].val is False and not self.opts.get("include_known"):
+            if conj and extra and self.is_const_false(extra[0]) and not self.opts.get("include_known"):
                 extra = []  # FINDINGS.md F6
             return G.Chain("and" if conj else "or", [left, right] + extra, BOOL)
         self.feat("op:" + ("&&" if conj else "||"))
